@@ -180,6 +180,14 @@ theorem C18_scale_als_step (X : Matrix m n 𝕜) (Z : Matrix n r 𝕜) (A : Matr
   ⟨(als_step_scale X Z A c h).1, (als_step_scale X Z A c h).2,
    fun Gi A' hG h' => als_step_scale_unique X Z A A' Gi c hG h h'⟩
 
+/-- The one data-dependent switch inside a CP-ALS mode update — skip the solve when the coefficient
+matrix `Y` (Hadamard product of the other Gram matrices) is exactly zero — is scale-free: for data
+scaled by `c ≠ 0` the matrix is `c² Y` (or a positive column rescaling of it) and `c² Y = 0 ↔ Y = 0`.
+An absolute tolerance in that test (e.g. `allclose(Y, 0)`) is NOT: it fires for small `c` only. -/
+theorem C18_scale_als_zero_guard {r : Type} {𝕜 : Type} [Field 𝕜] (Y : Matrix r r 𝕜) (c : 𝕜) (hc : c ≠ 0) :
+    (c * c) • Y = 0 ↔ Y = 0 :=
+  als_zero_guard_scale Y c hc
+
 /-- PARTIAL (whole-run scale equivariance of CP-ALS).  After the first sweep CP-ALS normalises
 columns by `max(max|·|, 1)`, which is not scale-equivariant, so the factor matrices of the two
 runs differ by an invertible column scaling `D`.  What is proved is the simulation step: if the
